@@ -12,7 +12,7 @@ import prog  # noqa
 import progcommon as P  # noqa
 from lib import f32  # noqa
 
-MODULES = ["InovesaModel.Props.C10", "InovesaModel.Props.TieMoments", "InovesaModel.Props.TieRuler", "InovesaModel.Props.TieH5", "InovesaModel.Props.TiePS", "InovesaModel.Props.TieH5Shapes"]
+MODULES = ["InovesaModel.Props.C10", "InovesaModel.Props.TieMoments", "InovesaModel.Props.TieRuler", "InovesaModel.Props.TieH5", "InovesaModel.Props.TiePS", "InovesaModel.Props.TiePhysics", "InovesaModel.Props.TieH5Shapes"]
 LEVEL = "proof"
 U = 2.0 ** -24
 
